@@ -599,9 +599,18 @@ def execute(sc):
                     continue
                 if p.get('hidden_missing'):
                     continue
-                w.put(_file_of(sc2, i), ('old_%d=1\n' % i).encode() +
-                      _file_bytes(sc2, i))
-            w.put('proj/main.lua', b'old_main=1\n' + main_text.encode())
+                if sc.get('rebuild') == 'same-stat':
+                    # older contents of the same length
+                    w.put(_file_of(sc2, i), _file_bytes(sc2, i).replace(
+                        b'mk_', b'ok_').replace(b'fn_', b'on_'))
+                else:
+                    w.put(_file_of(sc2, i), ('old_%d=1\n' % i).encode() +
+                          _file_bytes(sc2, i))
+            if sc.get('rebuild') == 'same-stat':
+                w.put('proj/main.lua', main_text.encode().replace(
+                    b'mk_', b'ok_').replace(b'fn_', b'on_'))
+            else:
+                w.put('proj/main.lua', b'old_main=1\n' + main_text.encode())
             try:
                 rrc = tool.main(argv)
             except BaseException:
@@ -613,8 +622,18 @@ def execute(sc):
                     continue
                 if p.get('hidden_missing'):
                     continue
-                w.put(_file_of(sc2, i), _file_bytes(sc2, i))
-            w.put('proj/main.lua', main_text.encode())
+                if sc.get('rebuild') == 'same-stat':
+                    # rewritten in place, previous timestamps restored:
+                    # (mtime, size) do not tell the versions apart
+                    w.put_keep_times(_file_of(sc2, i), _file_bytes(sc2, i))
+                else:
+                    w.put(_file_of(sc2, i), _file_bytes(sc2, i))
+            if sc.get('rebuild') == 'same-stat':
+                w.put_keep_times('proj/main.lua', main_text.encode())
+                core.bump(res['probes'], 'rebuilt-after-same-size-same-mtime-'
+                          'rewrite')
+            else:
+                w.put('proj/main.lua', main_text.encode())
             if sc.get('out_prior') != 'cart' and os.path.exists(
                     w.p(out_rel)):
                 os.unlink(w.p(out_rel))
@@ -1011,7 +1030,7 @@ def generate(rng, prop, tier, index):      # noqa: F811
         if index % 20 == 7:
             sc['warmup'] = 'same-args-other-env'
     if index % 5 == 4:
-        sc['rebuild'] = True
+        sc['rebuild'] = True if index % 15 != 4 else 'same-stat'
     sc['global_flags'] = [[], [], [], ['--debug'], ['-q']][index % 5] \
         if index % 3 == 0 else []
     sc['out_prior_code'] = index % 7
